@@ -16,7 +16,7 @@ def val(x):
     return np.nan if x == NAN else float(x)
 
 
-def build(c, tile=1):
+def build(c, tile=1, chan_order=None):
     """xarray compact collocation dataset in the layout Collocator.collocate produces; `tile` repeats the
     abstract dataset with index offsets (to exceed 1000 pairs)."""
     np_, ns = c["np"], c["ns"]
@@ -47,6 +47,17 @@ def build(c, tile=1):
         "Collocations/interval": ("Collocations/collocation", np.zeros(M, dtype="timedelta64[s]")),
         "Collocations/distance": ("Collocations/collocation", np.zeros(M)),
     }, coords={"Collocations/group": ["primary", "secondary"]})
+    # a variable that contains +inf where bt has its largest value: infinity is a VALUE (it counts), not a gap
+    bt = ds["secondary/bt"].values
+    if np.any(np.isfinite(bt)):
+        ds["secondary/spike"] = (("secondary/collocation", "secondary/channel"), np.where(bt == np.nanmax(bt), np.inf, bt))
+    if chan_order is not None:
+        # labelled channels, stored in the given order (the labels travel with their columns)
+        nch = ds.sizes["secondary/channel"]
+        labels = np.arange(1, nch + 1)
+        ds = ds.assign_coords({"secondary/channel": labels})
+        order = labels if chan_order == "ascending" else labels[::-1]
+        ds = ds.sel({"secondary/channel": order})
     return ds
 
 
@@ -65,6 +76,8 @@ def check_expand(col, c, exp, ds, label, conf):
     rep = {"abstract": {"compact": {k: c[k] for k in ("np", "ns", "pairs", "pv", "sv")}, "op": label}, "concrete": conf}
     try:
         e = expand(ds)
+        if "secondary/channel" in e.coords:
+            e = e.sortby("secondary/channel")
         pvals = e["primary/val"].values
         svals = e["secondary/bt"].transpose("collocation", "secondary/channel").values
         if "collocation" not in e["primary/val"].dims or "collocation" not in e["secondary/bt"].dims:
@@ -109,6 +122,8 @@ def check_collapse(col, c, ds, conf):
                 if ref != "primary" and any(v.endswith(("_max", "_first")) for v in r.variables):
                     raise AssertionError("collapser functions of an EARLIER call appear in a default call")
                 # float32 data: the statistics are those of the values (offset 2^23), not single-precision roundings of them
+                if "secondary/spike_number" in r.variables and not same(r["secondary/spike_number"].values, num):
+                    raise AssertionError("an infinite partner value was not counted")
                 m32 = r["secondary/bt32_mean"].values
                 # (the mean may be rounded to single precision - half a unit at 2^23 -, the SPREAD of the values is a small
                 #  number that any sound computation gets right to many digits, whatever the offset)
@@ -200,6 +215,9 @@ def replay_case(col, item):
         check_expand(col, ab, b["expand"] + a["expand"] + b["expand"], c3, "concat-expand", {"tile": 1, "list": "[b, a, b]"})
         c1 = concat_collocations([build(a)])
         check_expand(col, a, a["expand"], c1, "concat-expand", {"tile": 1, "list": "[a]"})
+        # labelled channels stored in opposite orders in the two datasets: data are combined by LABEL
+        cl = concat_collocations([build(a, chan_order="ascending"), build(b, chan_order="descending")])
+        check_expand(col, ab, case["ab"], cl, "concat-expand", {"tile": 1, "list": "[a, b]", "channel_labels": "ascending / descending"})
         # the inputs may be used again afterwards (no aliasing of the index arrays)
         da, db = build(a), build(b)
         concat_collocations([da, db])
